@@ -881,7 +881,23 @@ func genC19L(rng *rand.Rand, n int, thorough bool, emit func(string)) {
 	}
 }
 
+// genGREP: histories for the translated replayers (GFINITE / GVALID), long ones first
+func genGREP(rng *rand.Rand, n int, thorough bool, emit func(string)) {
+	for i := 0; i < longCount(thorough); i++ {
+		emit("GFINITE " + genLongFinite(rng, thorough))
+		emit("GVALID " + genLongValid(rng, thorough))
+	}
+	for i := 0; i < n; i++ {
+		if i%2 == 0 {
+			emit("GFINITE " + genFiniteHistory(rng, thorough, -1, false))
+		} else {
+			emit("GVALID " + genValidHistory(rng, thorough, -1, false))
+		}
+	}
+}
+
 func init() {
+	generators["GREP"] = genGREP
 	generators["C19L"] = genC19L
 	generators["C08"] = genC08
 	generators["C09"] = genC09
